@@ -13,12 +13,16 @@ def fnOf? (j : Json) : Option Fn :=
   match j with
   | .arr #[.str "block", .str f] => some (.block f)
   | .arr #[.str "allow", .str f] => some (.allow f)
+  | .arr #[.str "ublock", .str f] => some (.userFin true f)
+  | .arr #[.str "uallow", .str f] => some (.userFin false f)
   | .arr #[.str "setStatus", .str k, v] => (toJ v).map (.setStatus k)
   | _ => none
 
 def fnJson : Fn → Json
   | .block f => .arr #[.str "block", .str f]
   | .allow f => .arr #[.str "allow", .str f]
+  | .userFin true f => .arr #[.str "ublock", .str f]
+  | .userFin false f => .arr #[.str "uallow", .str f]
   | .setStatus k v => .arr #[.str "setStatus", .str k, ofJ v]
 
 def fnsOf? (j : Json) : Option (List Fn) := do (← jArr? j).mapM fnOf?
@@ -114,15 +118,15 @@ def origOf? (j : Json) (s : Server) : Option Obj :=
   | .str "server" => s.obj
   | j => objOf? j
 
-def runCycles (sub : Bool) : List Json → Option (List Fn) → Server → List Json → Option (List Json × Server × Option (List Fn))
+def runCycles (daemon sub : Bool) : List Json → Option (List Fn) → Server → List Json → Option (List Json × Server × Option (List Fn))
   | [], mem, s, acc => some (acc.reverse, s, mem)
   | c :: rest, mem, s, acc => do
       let fields ← kvsOf? (← jField? c "fields")
       let fns ← fnsOf? (← jField? c "fns")
       let orig ← origOf? (← jField? c "orig") s
       let env ← envOf? c
-      let (r, mem') := cycle sub mem fields fns orig env s
-      runCycles sub rest mem' r.server
+      let (r, mem') := cycleOf daemon sub mem fields fns orig env s
+      runCycles daemon sub rest mem' r.server
         (Json.mkObj [("result", resultJson r), ("memory", optFnsJson mem')] :: acc)
 
 def handle : DrvHandler := fun op args =>
@@ -137,10 +141,11 @@ def handle : DrvHandler := fun op args =>
       some (ok (resultJson (patchObj sub ⟨fields, fns⟩ orig env s)))
   | "C08.cycles", [j] => do
       let sub ← jBool? (← jField? j "sub")
+      let daemon ← jBool? (← jField? j "daemon")
       let s ← serverOf? (← jField? j "server")
       let mem ← jOpt? fnsOf? (← jField? j "memory")
       let cs ← jArr? (← jField? j "cycles")
-      let (outs, s', mem') ← runCycles sub cs mem s []
+      let (outs, s', mem') ← runCycles daemon sub cs mem s []
       some (ok (Json.mkObj [("cycles", .arr outs.toArray), ("server", serverJson s'), ("memory", optFnsJson mem')]))
   | "C08.fns", [fj, oj] => do
       let fns ← fnsOf? fj
